@@ -147,6 +147,38 @@ def kb2b(P, C):
              nested + ": with nknots == 2*order+2 both tests hold for the single centre, so right-margin points are evaluated without the shift (wrong values)")
 
 
+def kb2c(P, C):
+    """KB-2c: which polynomial piece a point ON a knot gets in the margins."""
+    C.rule("KB-2c", "a point exactly on a knot belongs to the piece on its right below the supported range and to the piece on its LEFT from the "
+           "upper end of the supported range upwards (so the last supported point and the last knot are included): in every basis kernel the "
+           "down-shift walks on while `x < knots[left]` and the up-shift while `x > knots[left+1]` — both strict. With `>=` in the up-shift a "
+           "point on a knot of the upper margin moves one span further: on the last knot every basis function is shifted out and the value is 0", floor=12)
+    for f in kernels(P):
+        xid = f.params[2]["id"]
+        loops = [i for i in f.walk() if f.k(i) == "WhileStmt"]
+        for L in loops:
+            body = f.render(f.nodes[L]["body"]).replace(" ", "")
+            tag = "down" if body in ("(left--)", "(--left)", "($3--)") else "up" if body in ("(left++)", "(++left)", "($3++)") else None
+            if tag is None:
+                continue
+            conn, leaves = core.cond_leaves(f, f.nodes[L]["cond"])
+            got = None
+            for lf in leaves:
+                n = f.nodes[f.strip(lf)]
+                if n["k"] != "BinaryOperator" or n.get("op") not in ("<", "<=", ">", ">="):
+                    continue
+                orr = f.oriented(f.strip(lf), lambda y: f.k(f.strip(y)) == "DeclRefExpr" and f.nodes[f.strip(y)]["decl"].get("id") == xid)
+                if orr is None:
+                    continue
+                got = (orr[1], f.render(orr[2]).replace(" ", ""))
+            want = ("<", "knots[left]") if tag == "down" else (">", "knots[(left+1)]")
+            ok = got == want
+            C.ob("KB-2c", kname(f), tag + "-shift-strict", ok, f.loc(L),
+                 "the %s-shift goes on while x %s %s" % (tag, want[0], want[1]) if ok else
+                 "the %s-shift goes on while x %s %s (required: x %s %s, strictly): a point exactly on a knot of the %s margin gets the piece on the other side of it" %
+                 (tag, got[0] if got else "?", got[1] if got else "?", want[0], want[1], "upper" if tag == "up" else "lower"))
+
+
 def kb7(P, C):
     C.rule("KB-7", "bspline_nonzero moves the value basis and the derivative basis in lock-step when it re-indexes them for a partially supported "
            "point: every element move `values[a] = values[b]` has the twin `derivs[a] = derivs[b]` with the same index expressions in the same "
